@@ -172,7 +172,9 @@ Aux:
 				// ignore
 			default:
 				if !ss.localHas(ad.Name) {
-					ss.Let(Symbol(ad.Name), ad.Default)
+					// The init form is evaluated in the scope of the call
+					// so it sees the parameters before it.
+					ss.Let(Symbol(ad.Name), ss.Eval(ad.Default, depth+1))
 				}
 			}
 		case restMode:
@@ -193,15 +195,10 @@ Aux:
 			if AmpAux == asym {
 				mode = auxMode
 			} else if !ss.localHas(ad.Name) {
-				ss.Let(asym, ad.Default)
+				ss.Let(asym, ss.Eval(ad.Default, depth+1))
 			}
 		case auxMode:
-			val := ad.Default
-			if list, ok := val.(List); ok && 1 < len(list) {
-				d2 := depth + 1
-				val = ss.Eval(ListToFunc(ss, list, d2), d2)
-			}
-			ss.Let(Symbol(ad.Name), val)
+			ss.Let(Symbol(ad.Name), ss.Eval(ad.Default, depth+1))
 		}
 	}
 	return lam.BoundCall(ss, depth)
